@@ -569,6 +569,22 @@ def explore_c15(tier, seed):
             s = seed * 1000003 + i
             rng = random.Random(s)
             sc = scen.gen_scenario(s, rng.choice(["shocked", "shocked", "eventfree"]), T=rng.choice([8, 12]))
+            if i % 4 == 1:
+                # a rebuilding event with household damage and unequal shares over several rebuilding sectors, listed in
+                # reverse alphabetical order
+                from harness import runner as _runner
+                sc = _runner.gen_for("rebuild", s)
+                sc["T"] = 12
+                regs_, secs_, cats_ = scen.labels(sc["table"])
+                for ev in sc["events"]:
+                    ev["occ"], ev["dur"] = min(ev["occ"], 4), min(ev["dur"], 3)
+                    if ev["type"] == "rebuild":
+                        ev["occ"], ev["dur"] = min(ev["occ"], 3), 1
+                        tot_ = sum(ev["impact"].values())
+                        ev["house"] = {f"{regs_[0]}|{cats_[0]}": tot_ * 0.5}
+                        two = sorted(secs_[:2], reverse=True)
+                        ev["reb_sectors"] = {two[0]: 0.7, two[1]: 0.3}
+                        ev["shares_series"] = rng.random() < 0.5
             if known.match_scenario("C15", sc):
                 continue
             res["scenarios"] += 1
@@ -775,7 +791,7 @@ def explore_c16(tier, seed):
         for i in range(n):
             s = seed * 1000003 + i
             rng = random.Random(s)
-            stream = rng.choice(["shocked", "shocked", "crash", "excess", "eventfree"])
+            stream = rng.choice(["shocked", "shocked", "crash", "excess", "eventfree", "multi", "finishing"])
             from harness import runner
             sc = runner.gen_for(stream, s)
             sc["T"] = rng.choice([6, 10])
@@ -1220,6 +1236,23 @@ def explore_c17(tier, seed):
         io = scen.build_table(sc["table"], perm={"rows": _rp, "cols": _rp, "ycols": None})
         snaps = {nm: deep_snapshot(getattr(io, nm)) for nm in ("Z", "Y", "x", "A")}
         cfg = copy.deepcopy(sc["model"])
+        # parameter containers of every kind, with the markers the constructors interpret ("inf")
+        _secs = scen.labels(sc["table"])[1]
+        if cfg.get("inventory_dict") is None:
+            cfg["inventory_dict"] = {s_: rng.choice([90, 30, 5]) for s_ in _secs}
+        cfg["inventory_dict"][_secs[-1]] = rng.choice(["inf", "Infinity"])
+        if cfg.get("inf_sect") is None:
+            cfg["inf_sect"] = [_secs[0]]
+        if cfg["class"] == "psi" and not isinstance(cfg.get("restoration_tau"), dict):
+            cfg["restoration_tau"] = {s_: rng.choice([60, 30, 90]) for s_ in _secs}
+        if cfg["capital"]["kind"] == "default":
+            cfg["capital"] = {"kind": "dict", "values": {s_: rng.choice([4, 2.5, 10]) for s_ in _secs}}
+        # rebuilding shares that do not add up to exactly 1 in floats (0.7 + 0.2 + 0.1), given as the caller's own Series
+        if len(_secs) >= 3:
+            for e_ in sc["events"]:
+                if e_["type"] == "rebuild" and rng.random() < 0.7:
+                    e_["reb_sectors"] = dict(zip(_secs[:3], (0.7, 0.2, 0.1)))
+                    e_["shares_series"] = True
         containers = {}
         for nm in ("inventory_dict", "inf_sect"):
             if cfg.get(nm) is not None:
@@ -1244,7 +1277,9 @@ def explore_c17(tier, seed):
             imp = scen._mi(dict(e["impact"]), ["region", "sector"])
             house = scen._mi(dict(e["house"]), ["region", "category"]) if e.get("house") else None
             rs = dict(e["reb_sectors"]) if e.get("reb_sectors") else None
-            ev_inputs.append((imp, deep_snapshot(imp), house, deep_snapshot(house) if house is not None else None, rs, deep_snapshot(rs) if rs else None))
+            if rs is not None and (e.get("shares_series") or rng.random() < 0.5):
+                rs = pd.Series(rs, dtype=float)          # the caller's own Series of rebuilding shares
+            ev_inputs.append((imp, deep_snapshot(imp), house, deep_snapshot(house) if house is not None else None, rs, deep_snapshot(rs) if rs is not None else None))
             ev_objs.append(build_event_with(e, imp, house, rs))
         ev_snaps = [deep_snapshot(ev.impact) for ev in ev_objs]
         sim = Simulation(model, n_temporal_units_to_sim=sc["T"])
